@@ -546,7 +546,7 @@ def _r13_8(prog: Program, res: Result) -> None:
                 "the `@` is looked for in exactly one position in front of the decorator expression: `@ foo`, `@(foo)` and `@\\\\<newline>foo` start at `foo`")
     for c in searches:
         pat = c.args[0].value
-        cases = {"@": 0, "@ ": 0, "@(": 0, "@ (": 0, "@\\\n": 0, "x = 1\n@  ": 6}
+        cases = {"@": 0, "@ ": 0, "@(": 0, "@ (": 0, "@\\\n": 0, "x = 1\n@  ": 6, "@(  # cached\n    ": 0, "# see @thing\n@(": 13}
         problems = []
         try:
             rx = _re.compile(pat)
